@@ -237,8 +237,19 @@ def thorough_common(prop, all_obs):
         ms = st.load_mutants(a)
         a.seeded = True
         ms += st.load_mutants(a)
-        res = st.run(ms, int(os.environ.get("VERIF_SELFTEST_JOBS", "2"))) if ms else []
+        # time budget: each planted change costs one fact extraction of a scratch copy (~1 min on an idle 16-core machine, much more under
+        # load); batches are started until the budget is used up, the rest is reported as not run (evidence about the checker only)
+        jobs = int(os.environ.get("VERIF_SELFTEST_JOBS", "4"))
+        budget = float(os.environ.get("VERIF_SELFTEST_BUDGET_S", "1200"))
+        t_st = time.time()
+        res, not_run = [], []
+        for i in range(0, len(ms), jobs):
+            if time.time() - t_st > budget:
+                not_run = [m["id"] for m in ms[i:]]
+                break
+            res += st.run(ms[i:i + jobs], jobs)
         extra["checker_selftest"] = {"planted_changes": sum(1 for r in res if r["status"] not in ("silent-ok", "FALSE-ALARM")),
+                                     "not_run_budget_exhausted": not_run,
                                      "caught": sum(1 for r in res if r["status"] == "caught"),
                                      "behaviour_preserving_controls": sum(1 for r in res if r["status"] in ("silent-ok", "FALSE-ALARM")),
                                      "controls_silent": sum(1 for r in res if r["status"] == "silent-ok"),
